@@ -37,6 +37,17 @@ pub struct Unenc {
     pub pairs: std::collections::BTreeMap<(u8, u8), u64>,
 }
 
+/// default of handler parameters declared `#[serde(default = "rt::types::some7")]`: leaving
+/// the member out and sending `null` are two different things for such a parameter
+pub fn some7() -> Option<u32> {
+    Some(7)
+}
+pub const SOME7_JSON: &str = "7";
+
+pub fn some_word() -> Option<String> {
+    Some("dflt".to_string())
+}
+
 /// FNV-1a, used by echo queries to derive a value from their arguments
 pub fn hash64(s: &str) -> u64 {
     let mut h: u64 = 0xcbf29ce484222325;
